@@ -190,8 +190,9 @@ Print Assumptions C30_read_after_write_same_request.
    were removed by JSONDataBag.Set). Proved, with no extra hypothesis: when no written part is itself null (Forall is_set
    ws: the nulls lie strictly inside the parts, where JSONDataBag.Set strips them), Get of req returns strip v = v with all
    nulls purged. Core: prune_merge_strip / C30_merge_rebuilds_stripped_value - pruning commutes with stripping, so the
-   unused-branch check on v suffices. Still not covered: a part that is itself null (it becomes an Unset delta; what then
-   happens is shown by computation in ex_null_part). *)
+   unused-branch check on v suffices. The hypothesis `Forall is_set ws` cannot be dropped: with a part that is itself null
+   the statement is false (C30_read_after_write_null_part_refuted), so this theorem is the full result for its shape and
+   keeps `_partial` only w.r.t. the DESIGN wording. *)
 Theorem C30_read_after_write_same_request_nulls_partial : forall rules req v ws lms t b,
   set_writes rules req v = (ROk, ws) -> Forall is_set ws ->
   matches readable rules req = matches writeable rules req ->
@@ -204,6 +205,33 @@ Theorem C30_read_after_write_same_request_nulls_partial : forall rules req v ws 
   view_get rules (tx_get (add_deltas t ws)) req = VOk (strip v).
 Proof. exact view_read_after_write_same_request_strip. Qed.
 Print Assumptions C30_read_after_write_same_request_nulls_partial.
+
+(* storage-level read-after-write for Unset deltas (what a null part of a Set, or a View.Unset, becomes): an Unset of a
+   literal path, followed by any Sets and Unsets on paths diverging from it, leaves the path reading as missing *)
+Theorem C30_unset_stays_missing : forall ds1 d ds2 b b', Forall has_path (ds1 ++ d :: ds2) -> snd d = Null ->
+  lit_path (fst d) = true -> apply_deltas b (ds1 ++ d :: ds2) = Some b' ->
+  (forall d', In d' ds2 -> pdiverge (fst d) (fst d') = true) ->
+  bag_get (fst d) b' = BPathErr.
+Proof. exact unset_stays_missing. Qed.
+Print Assumptions C30_unset_stays_missing.
+
+(* the null-PART case: the statement "Get of the same request returns v with the nulls stripped" is FALSE when a written
+   part is itself null. Rules a.b.x -> p, a.c -> q, Set a = {b:{x:null}, c:2}: the part under b.x is null and becomes an
+   Unset of p; Get a returns {c:2}, whereas v with the nulls stripped is {b:{}, c:2} - the emptied parent of a null part
+   is not materialised (and with ALL parts null Get answers NotFound). Replayed on the real code (./check --replay of this
+   history): Get a = {"c":2}. Judged against the property text this is not a defect: a null inside a Set value is the
+   documented way to unset, and what IS read back is exactly what was stored (C30_unset_stays_missing,
+   C30_read_after_write_storage); only the shape of the emptied ancestors differs from `strip`. *)
+Theorem C30_read_after_write_null_part_refuted : exists rules req v ws,
+  set_writes rules req v = (ROk, ws) /\ matches readable rules req = matches writeable rules req /\
+  view_get rules (tx_get (add_deltas (mkTx [] []) ws)) req = VOk (Obj [(99, Atom 2%Z)]) /\
+  strip v = Obj [(98, Obj []); (99, Atom 2%Z)].
+Proof.
+  exists [mkRule [Lit 97; Lit 98; Lit 120] [Lit 112] RW; mkRule [Lit 97; Lit 99] [Lit 113] RW], [97],
+         (Obj [(98, Obj [(120, Null)]); (99, Atom 2%Z)]), [([112], Null); ([113], Atom 2%Z)].
+  repeat split; reflexivity.
+Qed.
+Print Assumptions C30_read_after_write_null_part_refuted.
 
 Theorem C30_merge_rebuilds_stripped_value : forall L cur, wf_tree cur = true -> pw_div L ->
   (forall s, In s L -> exists x, value_at s cur = Some x /\ x <> Null) ->
